@@ -111,9 +111,6 @@ func c04Graph(c *Ctx, cs *c04Case) {
 	if kind, what := diffTables(got, model, true); kind != "" && !failed {
 		c.Disagree("C04/model/"+mode+"/"+kind, "graph.New and the Lean model differ: "+what+" ["+q.String()+"]", "correspondence Graph.newGraph/newTree ~ graph.New (theorems graph_*_eq_spec are about the model)", cs)
 	}
-	if got.Total != (wd{}) {
-		_ = got
-	}
 }
 
 // ---------- level 2/3: report output forms ----------
@@ -153,7 +150,7 @@ func expectedDisplay(format string, t *gTable) []dispNode {
 					if !listed(e.Dst) {
 						cn = "" // an unlisted (all-zero) callee has no entry in the name table
 					}
-					d.Name = fmt.Sprintf("%s|%s|%#x|%d", ci.File, cn, ci.Address, ci.Lineno)
+					d.Name = fmt.Sprintf("%s|%s", ci.File, cn)
 				}
 				n.Out = append(n.Out, d)
 			}
